@@ -72,6 +72,10 @@ CHECKS = {
          "DESIGN.md §3 C17",
          "Every shipped strategy is constructed twice for every validator count (1..16, 31-33, 49, 63-65, 100, 1000, 2000) x stake family (equal, heavy tail, one dominant, straddling i/k, all vectors over 1..3 for n<=5) x committee size and sampled with every script: construction must not panic, exactly k in-range members, identical committees across constructions and repeated use, at least floor(f*k) seats under FA1/FA2 (exact integers), seat cap under decaying acceptance. Failing constructions that are recorded genuine defects are matched input-by-input against /verif/known_findings.json.",
          "Scripts deviate from real PRNG streams in at most two draws (a constant stream would only trip the documented MAX_TRIES rejection panic); TurbineSampler is cubic and limited to n <= 16."),
+ "C14": ("fault_enumeration", "deviation-bounded exhaustive enumeration of hostile repair answers (<= 2 per history, 12 kinds, every listed request position) against the real Repair loop and real RepairRequestHandler under a paused single-threaded runtime; responder sweep over request kind x index x holding state", "E4",
+         "DESIGN.md §3 C14",
+         "Default environment: an honest peer (real RepairRequestHandler over a real blockstore holding the block) answers every request the real Repair loop sends. Every history with one hostile answer of each of 12 kinds at every listed request position, and pairs on a subset, is executed: NACK, silence, wrong variant, invalid proof, wrong index, wrong root, replayed answer, root/shred of another validly signed slice of the leader, same root with the other last flag, unsolicited answer, duplicate, corrupted signature / over-long proof / inflated slice count. After the last hostile answer all requests are answered correctly and up to 4 request time-outs elapse (virtual time): the repair task must be alive, nothing foreign stored under the requested id, and the block stored with its double-Merkle root equal to the id. Responder: every request kind x slice/shred index (0..=last+1, 1023; all 64 shreds) x {held, held via repair, partial, unknown} x sender (known/unknown) is answered with data verifying against the block hash or with a NACK, and the task survives.",
+         "Blocks of 1-2 (thorough 3) slices; request destinations chosen by the library's thread RNG are ignored (requests are de-duplicated by content); hostile answers come from a fixed menu, not all byte strings (C19)."),
 }
 
 NOT_YET = {}
@@ -112,6 +116,8 @@ def main():
              "kind_free_text": "level-synchronous replay-based explicit-state BFS over operation sequences of real components, dedup on a digest of the complete real state, reference model compared on every transition"},
             {"name": "E1", "path": "/verif/harness/src/nodesys.rs", "serves_properties": sorted(k for k, v in CHECKS.items() if v[2] == "E1"),
              "kind_free_text": "explicit-state exploration of real node cores (PoolImpl + Votor) with harness-owned network, timers and block arrivals"},
+            {"name": "E4", "path": "/verif/harness/src/c14.rs", "serves_properties": sorted(k for k, v in CHECKS.items() if v[2] == "E4"),
+             "kind_free_text": "real tasks (repair loop, responder, whole nodes) inside a paused, single-threaded tokio runtime with harness-owned in-memory networks; enumeration of a finite hostile-input / fault menu"},
             {"name": "E3", "path": "/verif/harness/src", "serves_properties": sorted(k for k, v in CHECKS.items() if v[2] == "E3"),
              "kind_free_text": "exhaustive nested-loop enumeration of a finite structured input domain of pure functions, oracle = independent recomputation"},
         ],
